@@ -688,7 +688,10 @@ namespace pika::mpi::experimental {
 
             // get mpi completion mode settings
             auto mode = get_completion_mode();
-            mpi_data_.single_thread_mode_ = can_run_singlethreaded(mode);
+            // the lock-free single threaded mode is only valid if exactly one worker thread polls
+            // (and runs the transferred requests): any pool can be named in start_polling
+            mpi_data_.single_thread_mode_ =
+                can_run_singlethreaded(mode) && pool.get_os_thread_count() == 1;
             if (mpi_data_.single_thread_mode_)
             {
                 PIKA_DETAIL_DP(detail::mpi_debug<1>,
